@@ -668,7 +668,7 @@ func init() {
 	core.Register(&core.Prop{
 		ID:    "C14",
 		Title: "Enumerable functions agree with iteration and leave the receiver unchanged",
-		Cases: func(tier string) int { return tierN(tier, 40000, 800000) },
+		Cases: func(tier string) int { return tierN(tier, 40000, 4000000) },
 		Run:   runC14,
 		Rule: "one container per case (ArrayList, SinglyLinkedList, DoublyLinkedList, TreeSet, LinkedHashSet, TreeMap, LinkedHashMap, TreeBidiMap; natural/reversed/coarsened comparators; n in {0,1,2,3..40}) in a state reached by a short history; " +
 			"the callback log of Each is compared with the iterator walk; Any/All/Find with exists/for-all/first-match for predicates depending on index, key and value (incl. constant true/false); Select with the matching elements in original order; " +
